@@ -157,7 +157,18 @@ func classify(rc *RenderCase, ji int) string {
 	case envHasSentinel(rc.Envs[j.Env]) || strings.Contains(src, "☢"):
 		return "sentinel-in-content"
 	case strings.Contains(src, "@attributes"):
-		return "attributes-command"
+		// the recorded finding and nothing else: the output is the intent minus the blank before the @attributes list
+		// (renders that fail, or fail to, are not explained by it)
+		if ji < len(rc.Real) {
+			wk, werr, ok := rt.IntentKnownAttrsSep(rc.File, j.Name, rc.Envs[j.Env])
+			if ok && werr == "" && rc.Real[ji].Err == "" && wk == realBytes(rc.Real[ji]) {
+				return "attributes-command"
+			}
+			if ok && werr == "" && j.Plan != (rt.Plan{}) {
+				return "attributes-command" // a writer fault plan: the document is judged by C12's own rules
+			}
+		}
+		return "plain"
 	}
 	return "plain"
 }
@@ -258,7 +269,7 @@ func c14(c *Ctx) {
 func c05(c *Ctx) {
 	c.Rep.TieObs = []string{"O-render"}
 	c.Rep.Rule = "call graphs of generated templates: layouts using @children zero, one or several times, rendering earlier layouts (forwarding their own children), pages nesting @render inside children blocks; oracle: generator-intent inlining (block evaluated in the caller's scope, empty children when none given) vs real bytes; distinct = distinct (template, environment); non-trivial = template reaches @render"
-	o := gen.Opts{ObjRefs: false, ClassExprs: false, NonASCII: false, MaxDepth: 3, RenderHeavy: true, BlankLines: true, ShorthandElse: true}
+	o := gen.Opts{ObjRefs: false, ClassExprs: false, NonASCII: false, MaxDepth: 3, RenderHeavy: true, BlankLines: true, ShorthandElse: true, SpaceIndent: true}
 	cases := c.stdRenderCases(c.N(3, 40), 4, c.N(24, 40), c.N(5, 8), o)
 	c.renderBoth(cases)
 	c.featDist(cases)
